@@ -10,6 +10,7 @@ import (
 	"github.com/pegnet/pegnet/modules/graderStake"
 	"github.com/pegnet/pegnetd/config"
 	"github.com/pegnet/pegnetd/fat/fat2"
+	"github.com/pegnet/pegnetd/node/pegnet"
 	"github.com/pegnet/pegnetd/zzverif/vrt"
 )
 
@@ -39,6 +40,9 @@ func VerifRestartChain() {
 	te, _ := vrtMakeEntry(ekTransfer, vrtHash(0x43), blockTime.Unix()+1200, base+2, 300, B)
 	entriesAt := map[uint32][]factom.Entry{base + 1: {h1}, base + 2: {h2, te}}
 	graded := map[uint32]bool{base + 1: true, base + 2: false, base + 3: true}
+	// the unrated block either has no OPR/SPR entry block at all, or has them without any winner
+	// (it is then recorded in pn_grade although it carries no rates)
+	emptyGraded := map[uint32]bool{base + 2: vrt.Choose("gapKind", 2) == 1}
 	rU := vrt.URange("rateUSD", 1, 1<<30)
 	rX := vrt.URange("rateXBT", 1, 1<<30)
 
@@ -68,13 +72,13 @@ func VerifRestartChain() {
 		cur = b.Height
 		b.Timestamp = blockTime.Add(time.Duration(b.Height-base) * 10 * time.Minute)
 		b.EBlocks = nil
-		if graded[b.Height] {
+		if graded[b.Height] || emptyGraded[b.Height] {
 			b.EBlocks = append(b.EBlocks, factom.EBlock{ChainID: &oprC, Height: b.Height, KeyMR: vrtHash(0x71), PrevKeyMR: vrtHash(0x72)})
 		}
 		if len(entriesAt[b.Height]) > 0 {
 			b.EBlocks = append(b.EBlocks, factom.EBlock{ChainID: &txC, Height: b.Height, KeyMR: vrtHash(0x70), PrevKeyMR: vrtHash(0x76)})
 		}
-		if graded[b.Height] {
+		if graded[b.Height] || emptyGraded[b.Height] {
 			b.EBlocks = append(b.EBlocks, factom.EBlock{ChainID: &sprC, Height: b.Height, KeyMR: vrtHash(0x73), PrevKeyMR: vrtHash(0x74)})
 		}
 		return nil
@@ -150,6 +154,11 @@ func VerifRestartChain() {
 	for h := base + 1; h <= base+3; h++ {
 		apply(dB, dbB, h)
 		if h < base+3 && vrt.Choose("restartAfter", 2) == 1 {
+			// what a start of the daemon does with its database: Init (tables + migrations), then
+			// the sync height is read back
+			if err := (&pegnet.Pegnet{DB: dbB}).VrtCreateTables(); err != nil {
+				panic("start-up: " + err.Error())
+			}
 			dB = vrtResume(dbB)
 			restarts++
 		}
